@@ -524,6 +524,156 @@ def pending_comment_respected(R, ctx):
     R.require(rid, "floor:writers", n >= 3, "", "%d writing functions" % n)
 
 
+def last_token_is_last_written(R, ctx, rid="C18.last-token"):
+    """append_text_comment (location end) hangs its comment on the token Block hands out as the last one: that token must be the last
+    one the generator writes, or the comment lands in the middle of the statement and pushes the rest of it one line down."""
+    from .. import peval, astmodel
+    from ..peval import make, Enum, some, NONE, deref
+    from . import c13
+    lib = ctx.lib
+    R.rule(rid, "the Block method whose token append_text_comment decorates for location `end` (found from the rule's own calls: a Block "
+                "method returning `&mut Token`, told apart from the first-token one by evaluation on `local b = c return a`), evaluated "
+                "on blocks ending in return / break / local assignment / typed local without value / type declaration, each with and "
+                "without a `;` after it, on mixed `;` lists and on the empty block: a comment pushed on the token returned is, in the "
+                "text every trivia-writing generator produces from the same tree, after every code token (only whitespace follows it)")
+    B = astmodel.Builder(lib)
+    N, T = "nodes::", "nodes::token::"
+    def one(sfx):
+        c = [a for a in lib.adts if a.endswith(sfx)]
+        return c[0] if len(c) == 1 else None
+    BT, TN, TYPE = one("block::BlockTokens"), one("types::type_name::TypeName"), one("nodes::types::Type")
+    TD, TDT, LAT = one("type_declaration::TypeDeclarationStatement"), one("type_declaration::TypeDeclarationTokens"), one("local_assign::VariableAssignmentTokens")
+    if not R.require(rid, "anchor:node-types", not B.missing and all((BT, TN, TYPE, TD, TDT, LAT)), "", "node types not found"):
+        return
+    cands = {}
+    for g in lib.fn_list:
+        if g.get("file", "").endswith("append_text_comment.rs") and "::test" not in g["path"]:
+            for c in thir.calls(g):
+                f = lib.fn(callee_of(c) or "")
+                if f is not None and f.get("self_tys") == B.BLOCK and len(f["thir"].get("params", [])) == 1 and thir.body_of(f) and \
+                        lib.ty_str(c.get("t")).replace(" ", "") in ("&mut" + T + "Token", "&mutnodes::token::Token"):
+                    cands[f["path"]] = f
+    if not R.require(rid, "anchor:block-token-fns", len(cands) >= 1, "", "Block methods returning &mut Token called by append_text_comment: %s" % sorted(cands)):
+        return
+
+    def tok(text):
+        return make(lib, T + "Token", {"position": Enum(T + "Position", "Any", {"content": text}), "leading_trivia": [], "trailing_trivia": []})
+
+    def ident(n):
+        return B.mk(B.IDENT, name=n, token=some(tok(n)))
+
+    def var(n):
+        return Enum(B.EXPR, "Identifier", {"0": ident(n)})
+
+    def tname(n):
+        return Enum(TYPE, "Name", {"0": make(lib, TN, {"type_name": ident(n), "type_parameters": NONE})})
+
+    def ret():
+        return Enum(B.LAST, "Return", {"0": B.mk(B.RETURN, expressions=[var("a")], tokens=NONE)})
+
+    def brk():
+        return Enum(B.LAST, "Break", {"0": some(tok("break"))})
+
+    def local(name, value=None, ty=None):
+        t = B.mk(B.TYPED, name=ident(name), token=some(tok(":")) if ty else NONE)
+        t.fields["type"] = some(tname(ty)) if ty else NONE
+        toks = make(lib, LAT, {"equal": some(tok("=")) if value else NONE, "variable_commas": [], "value_commas": []})
+        for k, v in list(toks.fields.items()):
+            if isinstance(v, peval.Struct) and v.adt == T + "Token":
+                toks.fields[k] = tok("local")
+        node = B.mk(B.LOCAL, variables=[t], values=[var(value)] if value else [], tokens=some(toks))
+        for f in lib.adts[B.LOCAL]["variants"][0]["fields"]:       # the kind of assignment (a unit enum): the first one, `local`
+            e = lib.adts.get(f.get("tys", ""))
+            if e is not None and e.get("kind") == "enum" and all(not v["fields"] for v in e["variants"]):
+                node.fields[f["name"]] = Enum(f["tys"], e["variants"][0]["name"], {})
+        return B.stmt("LocalAssign", node)
+
+    def typedecl():
+        toks = make(lib, TDT, {"equal": tok("="), "export": NONE})
+        toks.fields["type"] = tok("type")
+        node = make(lib, TD, {"name": ident("A"), "exported": False, "generic_parameters": NONE, "tokens": some(toks)})
+        node.fields["type"] = tname("number")
+        return B.stmt("TypeDeclaration", node)
+
+    def block(stmts, last, semis, last_semi):
+        b = B.block(stmts, last)
+        b.fields["tokens"] = some(make(lib, BT, {"semicolons": [some(tok(";")) if x else NONE for x in semis],
+                                                 "last_semicolon": some(tok(";")) if last_semi else NONE, "final_token": NONE}))
+        return b
+    shapes = [("local b = c return a  (base)", lambda: block([local("b", "c")], ret(), [False], False))]
+    for semi in (False, True):
+        sfx = ";" if semi else ""
+        shapes += [
+            ("return a" + sfx, lambda semi=semi: block([], ret(), [], semi)),
+            ("break" + sfx, lambda semi=semi: block([], brk(), [], semi)),
+            ("local b = c%s return a" % sfx, lambda semi=semi: block([local("b", "c")], ret(), [semi], False)),
+            ("local b = c return a" + sfx, lambda semi=semi: block([local("b", "c")], ret(), [False], semi)),
+            ("local b = c" + sfx, lambda semi=semi: block([local("b", "c")], None, [semi], False)),
+            ("local b: T" + sfx, lambda semi=semi: block([local("b", None, "T")], None, [semi], False)),
+            ("local b: T = c" + sfx, lambda semi=semi: block([local("b", "c", "T")], None, [semi], False)),
+            ("type A = number" + sfx, lambda semi=semi: block([typedecl()], None, [semi], False)),
+            ("local b = c; type A = number" + sfx, lambda semi=semi: block([local("b", "c"), typedecl()], None, [True, semi], False)),
+            ("local b = c%s local d = e" % sfx, lambda semi=semi: block([local("b", "c"), local("d", "e")], None, [semi, False], False)),
+        ]
+    shapes.append(("(empty block)", lambda: B.block()))
+    shapes.append(("local b = c  (no block tokens)", lambda: B.block([local("b", "c")])))
+    shapes.append(("local b: T  (no block tokens)", lambda: B.block([local("b", None, "T")])))
+    gens = []
+    for G, new, nargs in c13.generators(ctx):
+        wb, fin = c13.trait_fn(lib, G, "write_block"), c13.trait_fn(lib, G, "into_string")
+        if wb is not None and fin is not None:
+            gens.append((G, new, nargs, wb, fin))
+
+    def written(b):
+        out = {}
+        for G, new, nargs, wb, fin in gens:
+            pe = peval.PEval(lib, ctx.an, fuel=2000000, max_depth=60)
+            try:
+                g = pe.call_fn(new, list(nargs))
+                pe.call_fn(wb, [g, b])
+                text = pe.call_fn(fin, [g])
+            except peval.OutOfFuel:
+                text = None
+            out[G] = text if isinstance(text, str) else ("?", pe.unknown_reasons[:2])
+        return out
+
+    def run_shape(fn, mk):
+        b = mk()
+        pe = peval.PEval(lib, ctx.an, fuel=2000000, max_depth=60)
+        try:
+            r = deref(pe.call_fn(fn, [b]))
+        except peval.OutOfFuel:
+            r = None
+        if not isinstance(r, peval.Struct) or r.adt != T + "Token":
+            return None, "the token returned could not be established: %s" % (pe.unknown_reasons[:2],)
+        r.fields.setdefault("trailing_trivia", [])
+        r.fields["trailing_trivia"].append(make(lib, T + "Trivia", {"position": Enum(T + "Position", "Any", {"content": "--MARK"}), "kind": Enum(T + "TriviaKind", "Comment", {})}))
+        res = written(b)
+        seen = False
+        for G, text in res.items():
+            if not isinstance(text, str):
+                return None, "%s: text not established %s" % (G.split("::")[-1], text[1])
+            if "--MARK" not in text:
+                continue            # this generator does not write trivia
+            seen = True
+            if text.count("--MARK") != 1 or not text.rstrip().endswith("--MARK"):
+                return False, "%s writes %r: code follows the comment" % (G.split("::")[-1], text)
+        if not seen:
+            return False, "no generator writes the comment pushed on the token returned (%r): it hangs on a token that is never written" % (res,)
+        return True, ""
+    lasts = [f for f in cands.values() if run_shape(f, shapes[0][1])[0] is True]
+    if not R.require(rid, "anchor:last-token-fn", len(lasts) == 1, ctx.where(next(iter(cands.values()))),
+                     "of %s, the ones whose token is written last on `local b = c return a`: %s" % (sorted(cands), [f["path"] for f in lasts])):
+        return
+    fn = lasts[0]
+    n = 0
+    for name, mk in shapes[1:]:
+        ok, why = run_shape(fn, mk)
+        n += 1
+        R.ob(rid, "%s" % name, ok is True, ctx.where(fn), "the token returned is the last one written" if ok else why)
+    R.require(rid, "floor:shapes", n >= 20, "", "%d block tails evaluated" % n)
+
+
 def run(R, ctx):
     R.explanation = (
         "Static coverage proof over the AST type graph (derived from the ADT facts): every slot that can hold a Token is "
@@ -553,3 +703,4 @@ def run(R, ctx):
     pending_comment_respected(R, ctx)
     braces_kept_apart(R, ctx)
     comment_after_minus(R, ctx)
+    last_token_is_last_written(R, ctx)
